@@ -104,6 +104,51 @@ def descendants(root, table=None):
     return sorted(out)
 
 
+def spawned_children(pid):
+    """Direct live children of `pid` that are multiprocessing-spawned workers (not the resource tracker)."""
+    out = []
+    for p, (pp, st, _) in proc_table().items():
+        if pp != pid or st in 'ZX':
+            continue
+        try:
+            with open('/proc/%d/cmdline' % p, 'rb') as f:
+                cmd = f.read()
+        except OSError:
+            continue
+        if b'spawn_main' in cmd:
+            out.append(p)
+    return sorted(out)
+
+
+def cmd_of(pid):
+    try:
+        with open('/proc/%d/cmdline' % pid, 'rb') as f:
+            return f.read().replace(b'\0', b' ').decode('utf-8', 'replace').strip()
+    except OSError:
+        return ''
+
+
+def is_resource_tracker(pid):
+    return 'resource_tracker' in cmd_of(pid)
+
+
+def tagged_pids(tag):
+    """Live (non-zombie) processes whose initial environment carries VF_SCN=<tag>: the server of one
+    scenario and everything that descends from it, also after re-parenting."""
+    needle = ('VF_SCN=' + tag).encode()
+    out = []
+    for p, (pp, st, _) in proc_table().items():
+        if st in 'ZX':
+            continue
+        try:
+            with open('/proc/%d/environ' % p, 'rb') as f:
+                if needle in f.read():
+                    out.append(p)
+        except OSError:
+            pass
+    return sorted(out)
+
+
 def await_dead(pids, timeout, poll=0.02):
     """Wait until every pid is gone (or zombie); returns the list still alive after `timeout`."""
     t0 = time.time()
